@@ -198,6 +198,17 @@ func c08Run(c *Ctx) {
 			}
 		}
 	}
+	// 3g. a declaration whose array / object literal initialiser is written over several lines
+	for _, text := range []string{K["var"] + " m = [\n [1, 2],\n [3, 4]\n];", K["var"] + " o = {\n a: 1,\n b: [\n 2\n ]\n};", K["var"] + " t = [\n {id: 1},\n {id: 2}\n];\n" + K["print"] + " t;", K["var"] + " e = [\n];", K["var"] + " w = [1,\n 2, 3];", K["var"] + " bad = [\n 1,\n 2 3\n];", K["var"] + " bad2 = {\n a: 1\n b: 2\n};"} {
+		for _, wrap := range []string{"%s", Print(`"first"`) + "\n%s\n" + Print(`"last"`), K["fun"] + " w() {\n%s\n}", K["for"] + " (;;) {\n%s\n" + K["break"] + ";\n}"} {
+			if c.Mine() {
+				judge(&Case{Gen: "multiline-literal-declarations", Src: fmt.Sprintf(wrap, text)})
+			}
+			if c.Mine() {
+				judge(&Case{Gen: "multiline-literal-declarations-cli", Mode: "cli", Src: fmt.Sprintf(wrap, text)})
+			}
+		}
+	}
 	// 4. reserved names and the parameter limit
 	names := []string{"input"}
 	for _, n := range ref.BI {
